@@ -9,7 +9,12 @@ use crate::util::{pattern, Rng, J};
 use crate::Ctx;
 
 fn header_pool(rng: &mut Rng) -> Vec<(String, String)> {
-    let names = ["X-A", "x-b", "Content-Type", "Cache-Control", "X-Long", "Set-Cookie", "ETag", "Location", "X-Empty"];
+    let names = [
+        "X-A", "x-b", "Content-Type", "Cache-Control", "X-Long", "Set-Cookie", "ETag", "Location", "X-Empty",
+        // names the library keeps for itself: whatever their letter case they must not end up next
+        // to (or in conflict with) the framing the library generates
+        "transfer-encoding", "TRANSFER-ENCODING", "connection", "Trailer", "upgrade",
+    ];
     let mut v = Vec::new();
     for _ in 0..rng.below(5) {
         let n = *rng.pick(&names);
@@ -17,6 +22,10 @@ fn header_pool(rng: &mut Rng) -> Vec<(String, String)> {
             "X-Long" => "v".repeat(rng.range(100, 3000)),
             "X-Empty" => String::new(),
             "Content-Type" => "text/plain; charset=UTF-8".to_string(),
+            "transfer-encoding" | "TRANSFER-ENCODING" => ["chunked", "gzip", "identity"][rng.below(3)].to_string(),
+            "connection" => ["close", "keep-alive", "upgrade"][rng.below(3)].to_string(),
+            "Trailer" => "X-T".to_string(),
+            "upgrade" => "vproto".to_string(),
             _ => format!("val{}: with, colon;and=params {}", rng.below(1000), rng.below(10)),
         };
         v.push((n.to_string(), val));
@@ -172,6 +181,21 @@ pub fn check_pure(ctx: &Ctx, c: &Case, hdrs: &[(String, String)], case_seed: u64
             for (n, v) in hdrs {
                 if n.eq_ignore_ascii_case("content-type") {
                     continue; // replacement policy is C19's business
+                }
+                if ["transfer-encoding", "connection", "trailer", "upgrade"].iter().any(|r| n.eq_ignore_ascii_case(r)) {
+                    // reserved: must not come through at all (a Transfer-Encoding of the
+                    // application's next to the library's framing makes the message ambiguous)
+                    // (the library itself sends at most one such field, with the value "chunked",
+                    // also on a bodiless answer to HEAD)
+                    let tes: Vec<&String> = r.headers.iter().filter(|(rn, _)| rn.eq_ignore_ascii_case("transfer-encoding")).map(|(_, rv)| rv).collect();
+                    if n.eq_ignore_ascii_case("transfer-encoding") && (tes.len() >= 2 || tes.iter().any(|t| !t.eq_ignore_ascii_case("chunked"))) {
+                        fail(
+                            "C04/application-transfer-encoding-sent",
+                            format!("Transfer-Encoding fields on the wire: {:?}; the application's {:?}: {} was sent along with the library's framing", tes, n, v),
+                        );
+                        break;
+                    }
+                    continue;
                 }
                 let found = r.headers.iter().any(|(rn, rv)| rn == n && rv == v.trim_matches(|c| c == ' ' || c == '\t'));
                 if !found {
